@@ -10,9 +10,10 @@ pub mod c08;
 pub mod c09;
 pub mod c13;
 pub mod c15;
+pub mod c16;
 
 pub fn all() -> Vec<&'static PropInfo> {
-    vec![&c01::INFO, &c02::INFO, &c03::INFO, &c06::INFO, &c08::INFO, &c09::INFO, &c13::INFO, &c15::INFO]
+    vec![&c01::INFO, &c02::INFO, &c03::INFO, &c06::INFO, &c08::INFO, &c09::INFO, &c13::INFO, &c15::INFO, &c16::INFO]
 }
 
 pub fn find(id: &str) -> Option<&'static PropInfo> {
